@@ -70,7 +70,7 @@ pub fn c09_dt_set_day_of_year_holds(d: i32, n: u64, off: i32, y: i32, m: u32, dd
 macro_rules! dt_time_setter {
     ($name:ident, $method:ident, $max:expr, |$nod:ident, $v:ident| $newnod:expr) => {
         pub fn $name(d: i32, n: u64, off: i32, v: u32) {
-            assume(n < NPD as u64); assume(off > -86_400); assume(off < 86_400); assume(margin(d));
+            assume(n < NPD as u64); assume(off > -86_400); assume(off < 86_400); assume(in_range(local(d, n, off))); // range ends included
             let ld = local_day(d, n, off);
             let $nod = local_nod(d, n, off);
             let $v = v as i128;
@@ -80,7 +80,8 @@ macro_rules! dt_time_setter {
                     assert!(local_day(r.days, r.nanoseconds, off) == ld);
                     assert!(local_nod(r.days, r.nanoseconds, off) == $newnod);
                 }
-                Err(AstrolabeError::OutOfRange(_)) => assert!(v > $max),
+                // refused when the value is out of range, or when the edited local time is not representable as a UTC instant (range ends only)
+                Err(AstrolabeError::OutOfRange(_)) => assert!(v > $max || !in_range(ld as i128 * NPD + $newnod - off as i128 * NPS)),
                 Err(_) => assert!(false),
             }
         }
